@@ -630,7 +630,7 @@ def _encode(p: Problem, rng, input_term: bool = False):
 
         # for the Taylor-expanded sympy-matrix container the library canonicalises the input: equal levels may then be
         # written in algebraically equal but structurally different forms (factored / expanded)
-        disguise = spec["container"] == "sympy_matrix" and design == "indices" and rng.random() < 0.6
+        disguise = spec["container"] == "sympy_matrix" and design == "indices" and rng.random() < 0.95
         seen_levels = set()
 
         def dress0(M, offset_rows=0, offset_cols=0, square=True):
